@@ -1675,8 +1675,10 @@ class C02(Prop):
         el = impl_out["access"]["els"][i]
         if s is None:
             return None
-        if s * b < 8 or s != el:
-            return "D29"       # innermost relevant dimension is not bank-contiguous
+        if s * b < 8:
+            return "D29"       # the warning path: less than one bank in the innermost relevant dimension
+        if s != el:
+            return "DC02d"     # not contiguous although >= one bank: refused since fix FC02a (a hit is a regression)
         acc, geo = impl_out["access"], impl_out["geo"]
         want = el
         for bd, r in zip(acc["bounds"], geo["relevant"][i]):
